@@ -134,6 +134,84 @@ func runC07_1(c *core.Ctx) {
 					}
 				})
 			}
+			if closerDefer == nil && fdVar != nil && errRes != nil {
+				// no deferred closer: then every return that follows a failed step closes the socket explicitly
+				// (or is the EINPROGRESS case of a non-blocking connect, which the caller completes)
+				const (
+					sNone = iota
+					sAcq
+					sHeld
+					sFailed
+					sClosed
+				)
+				var acqStmt ast.Node
+				ast.Inspect(d.Body, func(n ast.Node) bool {
+					if as, ok := n.(*ast.AssignStmt); ok && len(as.Rhs) == 1 && ast.Unparen(as.Rhs[0]) == ast.Expr(acq) {
+						acqStmt = as
+					}
+					return true
+				})
+				isErr := func(e ast.Expr) bool { return flow.ObjOf(f.Info, e) == errRes }
+				au := &flow.Auto{Start: sNone}
+				au.Node = func(b *flow.Block, i int, n ast.Node, st int) int {
+					if n == acqStmt {
+						return sAcq
+					}
+					for _, call := range flow.Calls(n) {
+						if flow.IsPkgFunc(f.Info, call, unixPkg, "Close") && len(call.Args) == 1 && flow.ObjOf(f.Info, call.Args[0]) == fdVar && st == sFailed {
+							st = sClosed
+						}
+					}
+					if as, ok := n.(*ast.AssignStmt); ok && (st == sFailed || st == sClosed) {
+						for _, l := range as.Lhs {
+							if isErr(l) && st == sFailed {
+								return sFailed // the failure is re-labelled (err = os.NewSyscallError(…)), not cleared
+							}
+						}
+					}
+					return st
+				}
+				au.Edge = func(e *flow.Edge, st int) int {
+					if e.Cond == nil || e.Tag != nil {
+						return st
+					}
+					if x, y, op, ok := flow.Cmp(e.Cond); ok && flow.IsNil(f.Info, y) && isErr(x) {
+						failed := (op == token.NEQ) == e.Sense
+						switch st {
+						case sAcq:
+							if failed {
+								return sNone
+							}
+							return sHeld
+						case sHeld:
+							if failed {
+								return sFailed
+							}
+						}
+						return st
+					}
+					if call, ok := ast.Unparen(e.Cond).(*ast.CallExpr); ok && flow.IsPkgFunc(f.Info, call, "errors", "Is") && len(call.Args) == 2 && e.Sense && st == sFailed {
+						if o := flow.ObjOf(f.Info, call.Args[1]); o != nil && o.Name() == "EINPROGRESS" {
+							return sHeld
+						}
+					}
+					return st
+				}
+				sol := g.Run(au)
+				var bad token.Pos
+				sol.AtExit(func(b *flow.Block, _ uint64) {
+					if sol.Out(b)&(1<<sFailed|1<<sAcq) != 0 && bad == token.NoPos {
+						bad = b.Return.Pos()
+					}
+				})
+				at := acq.Pos()
+				if bad != token.NoPos {
+					at = bad
+				}
+				c.Check(bad == token.NoPos, f.Name, "deferred closer after sysSocket", at, "no deferred closer: every return after a failed step closes the socket explicitly",
+					"no deferred function closes the new socket under `err != nil`, and a return is reachable after a failed step without unix.Close("+fdVar.Name()+"): the socket leaks")
+				continue
+			}
 			if closerDefer == nil || fdVar == nil {
 				c.Violate(f.Name, "deferred closer after sysSocket", acq.Pos(), "no deferred function closes the new socket under `err != nil`: every later error return leaks it")
 				continue
